@@ -190,6 +190,9 @@ def operand_order(ctx, pydsdl, rng, workdir):
             outs.append(("ok", prints, body))
         except pydsdl.InvalidDefinitionError as ex:
             outs.append((type(ex).__name__, prints, body))
+        except Exception as ex:  # noqa
+            outs.append(("foreign", prints, body))
+            ctx.violation("C04/foreign-exception", "%r raised %r" % (body.split("\n")[0], ex), {"operand_order": [body, body]})
         finally:
             shutil.rmtree(workdir / "c04o", ignore_errors=True)
     ctx.mon("operand-order")
